@@ -6,8 +6,10 @@ import (
 	"os"
 	"os/exec"
 	"path/filepath"
+	"runtime"
 	"sort"
 	"strings"
+	"sync"
 
 	"verif/internal/core"
 )
@@ -53,20 +55,70 @@ func loadControls(verif, prop string) ([]Control, error) {
 	return cs, nil
 }
 
+// sharedNegatives: the behaviour-preserving variants recorded for the other
+// properties; every property's rules must stay silent on them too.
+func sharedNegatives(verif, prop string) []Control {
+	files, _ := filepath.Glob(filepath.Join(verif, "controls", "C*.json"))
+	sort.Strings(files)
+	var out []Control
+	for _, f := range files {
+		other := strings.TrimSuffix(filepath.Base(f), ".json")
+		if other == prop {
+			continue
+		}
+		cs, err := loadControls(verif, other)
+		if err != nil {
+			continue
+		}
+		for _, c := range cs {
+			if c.Kind == "negative" {
+				c.Name = other + ":" + c.Name
+				out = append(out, c)
+			}
+		}
+	}
+	return out
+}
+
 // runControls applies each control to a scratch copy of repo (outside /repo and
-// /verif), analyses it and removes it.
+// /verif), analyses it and removes it. Controls run on a small worker pool.
 func runControls(prop, repo, verif string, only string, base map[string]bool) []ControlResult {
 	cs, err := loadControls(verif, prop)
 	if err != nil {
 		return []ControlResult{{Name: "load", Status: "FAILED", Detail: err.Error()}}
 	}
-	var out []ControlResult
+	cs = append(cs, sharedNegatives(verif, prop)...)
+	var sel []Control
 	for _, ctl := range cs {
 		if only != "" && ctl.Name != only {
 			continue
 		}
-		out = append(out, runControl(prop, repo, ctl, base))
+		sel = append(sel, ctl)
 	}
+	out := make([]ControlResult, len(sel))
+	workers := runtime.NumCPU() / 3
+	if workers < 1 {
+		workers = 1
+	}
+	if workers > 5 {
+		workers = 5
+	}
+	var wg sync.WaitGroup
+	next := make(chan int)
+	for w := 0; w < workers; w++ {
+		wg.Add(1)
+		go func() {
+			defer wg.Done()
+			for i := range next {
+				out[i] = runControl(prop, repo, sel[i], base)
+			}
+		}()
+	}
+	for i := range sel {
+		next <- i
+	}
+	close(next)
+	wg.Wait()
 	return out
 }
 
@@ -110,6 +162,18 @@ func runControl(prop, repo string, ctl Control, base map[string]bool) (res Contr
 		}
 	}
 	sort.Strings(vkeys)
+	if ctl.Kind == "negative" {
+		for _, o := range rep.Obls {
+			if o.Verdict == core.Undecided {
+				rep.Errors = append(rep.Errors, "undecided: "+o.Key())
+			}
+		}
+		for _, f := range rep.Floors {
+			if f.Got < f.Want {
+				rep.Errors = append(rep.Errors, fmt.Sprintf("floor %s: %d < %d", f.Name, f.Got, f.Want))
+			}
+		}
+	}
 	if len(rep.Errors) > 0 && ctl.Kind == "negative" {
 		res.Status = "FAILED"
 		res.Detail = "inconclusive on a behaviour-preserving variant: " + strings.Join(rep.Errors, "; ")
